@@ -7,7 +7,7 @@
                        are within the range of the DSDL element type.
    db_wok db : what pydsdl guarantees of every type database (a union has options, signed widths <= 64). *)
 From Coq Require Import List NArith ZArith Bool.
-From Verif Require Import PyObj Gen_PyObj Gen_Pin_c18support PyObjThm PyObjThmRt.
+From Verif Require Import PyObj Gen_PyObj Gen_Pin_c18support PyObjThm PyObjThmRt PyObjThmRt2.
 Import ListNotations.
 Open Scope Z_scope.
 
@@ -143,6 +143,33 @@ Theorem C18_builtin_roundtrip_flat : forall q db tid c slots dslots b fuel,
   ufb tmpl_gen pick_width_gen q db (S fuel) (PObj tid dslots) b = (PObj tid slots, None).
 Proof. exact builtin_roundtrip_flat. Qed.
 Print Assumptions C18_builtin_roundtrip_flat.
+
+(* the full statement, for every type of every database: nested struct/union fields, arrays of composites, float16/32 arrays.
+   Premises (decidable, each shown necessary by a vm_compute counterexample in Gen/PyObjThmRt2.v, theorems roundtrip_needs_...):
+   db_strok (string-like arrays are arrays of uint<=8), db_defaults_ok (every default constructor succeeds), rt_ok (elements of
+   composite arrays are instances of the element class -- the template does not check that, see below --, float16/32 array elements
+   are representable in their storage type [true of every value NumPy stores; not proved for reachable states: needs idempotence of
+   the rounding model], and for the conformant variant within the range), enough fuel for the nesting depth of the value *)
+Theorem C18_builtin_roundtrip : forall q db fuel tid slots b,
+  db_strok db = true -> db_defaults_ok q db = true ->
+  let o := PObj tid slots in
+  wfv pick_width_gen db false o = true -> (q = false -> wfv pick_width_gen db true o = true) -> rt_ok q db o = true ->
+  tb db o = Some b -> (vdepth o <= fuel)%nat ->
+  ufb tmpl_gen pick_width_gen q db fuel (default_obj tmpl_gen pick_width_gen q db tid) b = (o, None).
+Proof. exact builtin_roundtrip. Qed.
+Print Assumptions C18_builtin_roundtrip.
+
+(* the gap, stated precisely: elements of composite arrays are not isinstance-checked by the template (both variants) *)
+Theorem C18_composite_array_elem_unchecked : forall q,
+  field_value tmpl_gen pick_width_gen q (FArr false 2 false (EComp 0)) (PList [PInt 1]) = Ok (PArr DObj [PInt 1]).
+Proof. exact composite_array_elem_unchecked. Qed.
+Print Assumptions C18_composite_array_elem_unchecked.
+
+Example C18_builtin_roundtrip_nonvacuous : forall q,
+  rt_premises q ex_db 3 2 ex_obj_slots = true /\
+  exists b, tb ex_db (PObj 2 ex_obj_slots) = Some b /\
+            ufb tmpl_gen pick_width_gen q ex_db 3 (default_obj tmpl_gen pick_width_gen q ex_db 2) b = (PObj 2 ex_obj_slots, None).
+Proof. exact builtin_roundtrip_example. Qed.
 
 Example C18_roundtrip_nonvacuous :
   let db := [ {| c_union := true; c_fields := [FScalar (EPrim (KS 12)); FArr false 5 true (EPrim (KU 8)); FScalar (EPrim (KF 16))] |} ] in
